@@ -16,6 +16,8 @@ NOT_DECIDED = ("the functional equivalence itself: that the overlay of pending r
                "order-dependent meaning of the log; no structural rule here decides them (DESIGN.md section 6).")
 DECIDED += ("; R4 position bookkeeping: the cursor stored after a cursor read / write is the transfer's own offset plus its result, and no "
             "record is logged for an empty write")
+DECIDED += ("; R5 name-space checks before creation: open creates a file only where no directory has the name, create_dir_all skips only existing "
+            "directories, and positioned writes / seeks do their offset arithmetic without a panicking operator")
 DECIDED += "; R3 sibling replays of the pending log consider the same record kinds (file_len ~ read_file, dir_entries ~ dir_has_children)"
 ASSUMPTIONS = ["Rust's &T / &mut T discipline: a function taking &Fs cannot mutate the tree (Fs has no interior mutability: checked)"]
 
@@ -243,6 +245,75 @@ def r4(ctx):
     ctx.floor(R, 5)  # 2 cursor stores, 1 record construction, 2 counts
 
 
+def r5(ctx):
+    R = "C10-R5"
+    ctx.rule(R, "name-space checks a POSIX tree makes before it creates an entry: (a) a file is created only where no *directory* has the name - in "
+                "OpenOptions::open every path to Fs::create_file_with_mode passes a test of Fs::dir_exists on its false edge (File::create / "
+                "tokio::fs::write on a directory name otherwise shadows the directory with a file of the same name); (b) create_dir_all skips "
+                "only components that exist *as directories*: in the creation loops no true edge of an Fs::file_exists test bypasses the mkdir "
+                "(create_dir_all over a regular file otherwise returns Ok and creates nothing); (c) positioned writes and seeks do their "
+                "offset arithmetic without a panicking operator: the offset is the caller's (any u64 / i64), and a panic there happens with the "
+                "Fs mutex held - the poisoned mutex aborts the process from File::drop")
+    SH = "turmoil_fs::shim::std::fs::"
+    # (a)
+    n = 0
+    for fb in ctx.w.family(SH + "OpenOptions::open") if SH + "OpenOptions::open" in ctx.w.bodies else []:
+        cr = [(bb, t) for bb, t in fb.calls(re.compile(r"^turmoil_fs::Fs::create_file(_with_mode)?$"))]
+        if not cr:
+            continue
+        te, fe = call_guard_edges(fb, re.compile(r"^turmoil_fs::Fs::dir_exists$"))
+        for bb, t in cr:
+            n += 1
+            # (the test may sit under `!file_exists`, which is tested again before the creation: dominance by the false edge is not
+            # required - a dir_exists test whose true edge cannot reach the creation is)
+            ok = bool(fe) and (fb.dominated_by_any(bb, edges=fe) or (bool(te) and not any(bb in fb.reachable(e[1]) for e in te)))
+            ctx.inst(R, "open:create-refused-on-directory", ok, t["s"], "a file is created only after dir_exists said no" if ok else
+                     "OpenOptions::open logs CreateFile without asking whether a directory has that name: File::create(\"/d\") on an existing directory creates a file /d - "
+                     "the path reports as a file while read_dir(\"/d\") still lists the directory's children")
+    if ctx.strict and not n:
+        ctx.bad(R, "open:create-refused-on-directory", "", "no file creation found in OpenOptions::open: re-derive")
+    # (b)
+    k = 0
+    for fid in (SH + "create_dir_all", SH + "create_dir_all_with_mode"):
+        for fb in ctx.w.family(fid) if fid in ctx.w.bodies else []:
+            mk = [bb for bb, t in fb.calls(re.compile(r"^turmoil_fs::Fs::mkdir(_with_mode)?$"))]
+            if not mk:
+                continue
+            k += 1
+            nxt = [bb for bb, t in fb.calls(re.compile(r"Iterator>::next$|^std::iter::Iterator::next$"))]
+            te, fe = call_guard_edges(fb, re.compile(r"^turmoil_fs::Fs::file_exists$"))
+            skip = [e for e in te if not any(x in fb.reachable(e[1], stop=nxt) for x in mk)]
+            ctx.inst(R, f"create_dir_all:skips-only-directories:{fid.rsplit('::', 1)[1]}", not skip, fb.term(skip[0][0]).get("s", fb.span) if skip else fb.span,
+                     "a component is skipped only when it exists as a directory" if not skip else
+                     f"the creation loop of `{fid}` skips a component that exists as a regular file: create_dir_all over a file returns Ok(()) and creates nothing "
+                     "(std and POSIX fail with `File exists` / `Not a directory`)")
+    if ctx.strict and k < 2:
+        ctx.bad(R, "create_dir_all:skips-only-directories", "", f"only {k} create_dir_all loop(s) found: re-derive")
+    # (c)
+    m = 0
+    for fid, what in ((SH + "File::write_at_internal", "write_at"), ("<" + SH + "File as std::io::Seek>::seek", "seek")):
+        if fid not in ctx.w.bodies:
+            continue
+        m += 1
+        risky = []
+        root = ctx.w.bodies[fid]
+        for fb in ctx.w.family(fid):
+            for bb, i, s2 in fb.all_stmts():
+                r = s2["r"]
+                if i == "term" or r["k"] != "bin" or r["op"] not in ("AddWithOverflow", "SubWithOverflow", "MulWithOverflow"):
+                    continue
+                at = Slicer(ctx.w).atoms(fb, r["a"]) | Slicer(ctx.w).atoms(fb, r["b"])
+                guest = any(re.match(r"arg:\d+:(offset|pos)@", a) for a in at) or any(a.startswith("field:std::io::SeekFrom") for a in at)
+                if guest and r["op"] == "AddWithOverflow":
+                    risky.append(s2["s"])
+        ctx.inst(R, f"offset-arithmetic:{what}", not risky, risky[0] if risky else root.span, "no panicking addition on the caller's offset" if not risky else
+                 f"`{fid}` adds to the caller's offset with the panicking `+`: {what} with an offset near the end of the range panics while the Fs mutex is held, "
+                 "the mutex is poisoned and File::drop aborts the process - a POSIX file returns EINVAL / EOVERFLOW")
+    if ctx.strict and m < 2:
+        ctx.bad(R, "offset-arithmetic", "", f"only {m} of write_at_internal / seek found: re-derive")
+    ctx.floor(R, 5)
+
+
 def run(ctx):
     if ctx.config not in ("all", "fs", "fs_iou"):
         ctx.info("C10-R1", "feature-off", "", "unstable-fs not enabled in this configuration: nothing to analyse")
@@ -251,6 +322,7 @@ def run(ctx):
     r2(ctx)
     r3(ctx)
     r4(ctx)
+    r5(ctx)
     C07.r3(ctx)   # R3: syncs move records, never drop or duplicate them
     C07.r1(ctx)   # R3: only sync / crash touch the persisted image
     C04.r6(ctx)   # R4: per-host isolation
